@@ -35,8 +35,10 @@ type MessageFuture struct {
 
 func NewMessageFuture(message RpcMessage) *MessageFuture {
 	return &MessageFuture{
-		ID:   message.ID,
-		Done: make(chan struct{}),
+		ID: message.ID,
+		// capacity 1: the one completion signal never blocks its sender, also
+		// when the waiter has already given up
+		Done: make(chan struct{}, 1),
 	}
 }
 
